@@ -48,7 +48,7 @@ namespace Givaro {
         r0=m;
         t0=0;
         r1=f;
-        if (f<0) r1+= m;
+        if (f<0) Integer::modin(r1,m); // 0 <= r1 < m, also for f <= -m
         t1=1;
         while(r1>=k)
         {
